@@ -217,6 +217,9 @@ structure Cfg where
   W : Nat := 2 ^ 64
   deriving DecidableEq, Repr, Inhabited
 
+/-- `self.node.get().expect("LocalNode::with ensures it is set")` (five sites in `list.rs`) -/
+def expectPanic : Fault := .panic "LocalNode::with ensures it is set"
+
 def dbgInUse (s : Shared) (n : Nat) (site : String) : Shared :=
   if (s.nodes n).inUse = nodeUsed then s else s.setFault (.debugAssert site)
 
@@ -235,8 +238,10 @@ def stepLP (cfg : Cfg) (c : Nat) (s : Shared) (l : Locals) (spur : Bool) :
     | some p => (s, l, .nfDbg p, [.load .attempt0 (.cell c) (.v (.ptr p))])
     | none => (s.setFault (.stuck "load of a dropped container"), l, .done 0 none, [])
   | .nfDbg p =>
-    let n := l.node.getD 0
-    (dbgInUse s n "new_fast", l, .probe p 0, [.load .newFast0 (.inUse n) (.nat (s.nodes n).inUse)])
+    match l.node with
+    | none => (s.setFault expectPanic, l, .done 0 none, [])
+    | some n =>
+      (dbgInUse s n "new_fast", l, .probe p 0, [.load .newFast0 (.inUse n) (.nat (s.nodes n).inUse)])
   | .probe p i =>
     let n := l.node.getD 0
     let idx := (i + l.offset) % slotCnt
@@ -267,10 +272,12 @@ def stepLP (cfg : Cfg) (c : Nat) (s : Shared) (l : Locals) (spur : Bool) :
     let (s, evs) := decObj s p
     (s, l, .nhDbg, evs)
   | .nhDbg =>
-    let n := l.node.getD 0
-    (dbgInUse s n "new_helping", l,
-      (if (l.gen + genStep) % cfg.W = 0 then .cool (.res n) else .f1),
-      [.load .newHelping0 (.inUse n) (.nat (s.nodes n).inUse)])
+    match l.node with
+    | none => (s.setFault expectPanic, l, .done 0 none, [])
+    | some n =>
+      (dbgInUse s n "new_helping", l,
+        (if (l.gen + genStep) % cfg.W = 0 then .cool (.res n) else .f1),
+        [.load .newHelping0 (.inUse n) (.nat (s.nodes n).inUse)])
   | .cool cd =>
     match stepCD s cd with
     | (s, .done, evs) => (s, l, .reget .trav, evs)
@@ -295,8 +302,10 @@ def stepLP (cfg : Cfg) (c : Nat) (s : Shared) (l : Locals) (spur : Bool) :
     | some p => (s, l, .chDbg g p, [.load .fallback0 (.cell c) (.v (.ptr p))])
     | none => (s.setFault (.stuck "load of a dropped container"), l, .done 0 none, [])
   | .chDbg g cand =>
-    let n := l.node.getD 0
-    (dbgInUse s n "confirm_helping", l, .f4 g cand, [.load .confirmHelping0 (.inUse n) (.nat (s.nodes n).inUse)])
+    match l.node with
+    | none => (s.setFault expectPanic, l, .done 0 none, [])
+    | some n =>
+      (dbgInUse s n "confirm_helping", l, .f4 g cand, [.load .confirmHelping0 (.inUse n) (.nat (s.nodes n).inUse)])
   | .f4 g cand =>
     let n := l.node.getD 0
     let old := (s.nodes n).hslot
@@ -449,8 +458,11 @@ def stepPP (cfg : Cfg) (p c : Nat) (s : Shared) (l : Locals) (spur : Bool) :
     (s, l, (match s.head with | some n => .res n | none => .fin), [.load .traverse0 .head (.node s.head)])
   | .res n =>
     let w := (s.nodes n).writers
-    (s.setNode n fun nd => { nd with writers := w + 1 }, l, .hDbg0 { who := n, own := l.node.getD 0 },
-      [.fadd .reserve0 (.writers n) w])
+    let s' := s.setNode n fun nd => { nd with writers := w + 1 }
+    -- `LocalNode::help` starts with the `expect`
+    match l.node with
+    | none => (s'.setFault expectPanic, l, .done, [.fadd .reserve0 (.writers n) w])
+    | some own => (s', l, .hDbg0 { who := n, own := own }, [.fadd .reserve0 (.writers n) w])
   | .hDbg0 h =>
     (dbgInUse s h.own "LocalNode::help", l, .hDbg1 h, [.load .lnHelp0 (.inUse h.own) (.nat (s.nodes h.own).inUse)])
   | .hDbg1 h =>
